@@ -81,6 +81,7 @@ MODULES = ["overlap", "kinetic", "momentum", "angmom", "moment1", "moment2", "po
 
 class Covariance:
     fp = True  # cross-check: the same contract on the unmodified float64 code at sampled inputs (bounded)
+    fp_nsamp = (1, 3)
 
     def fp_shapes(self, tier):
         sh = self.shapes(tier)
